@@ -217,6 +217,8 @@ async fn run_case_inner(c: &Case, root: &std::path::Path) -> Result<Outcome, Cas
     let n = c.cols.len();
     let cols: Vec<(String, Ty)> = p.names.iter().cloned().zip(c.cols.iter().cloned()).collect();
     let mut labels: Vec<String> = vec![];
+    let t0 = std::time::Instant::now();
+    let dbg = std::env::var("VERIF_DEBUG").is_ok();
     // ---- source table
     let cuts: Vec<usize> = c.batch_cuts.iter().map(|x| pick_index(*x, c.rows.len() + 1)).collect();
     let batches = rows_to_batches(&cols, &c.rows, &cuts).map_err(|m| CaseResult::discard(format!("outside domain: {m}")))?;
@@ -247,6 +249,9 @@ async fn run_case_inner(c: &Case, root: &std::path::Path) -> Result<Outcome, Cas
     let mt = MemTable::try_new(schema.clone(), parts).map_err(|e| CaseResult::inconclusive(format!("memtable: {e}")))?;
     ctx.register_table("src", Arc::new(mt)).map_err(|e| CaseResult::inconclusive(format!("register: {e}")))?;
 
+    if dbg {
+        eprintln!("[timing] session+src {:?}", t0.elapsed());
+    }
     // ---- write
     let out_dir = root.join("out");
     std::fs::create_dir_all(&out_dir).map_err(|e| CaseResult::inconclusive(format!("mkdir: {e}")))?;
@@ -337,6 +342,9 @@ async fn run_case_inner(c: &Case, root: &std::path::Path) -> Result<Outcome, Cas
             r.map_err(|e| fail("DataFrame write", &e))?;
         }
     }
+    if dbg {
+        eprintln!("[timing] written {:?}", t0.elapsed());
+    }
     let mut files = vec![];
     count_files(&out_dir, &mut files);
     labels.push(format!("files={}", files.len().min(9)));
@@ -385,6 +393,9 @@ async fn run_case_inner(c: &Case, root: &std::path::Path) -> Result<Outcome, Cas
         batches_to_rows(&b).map_err(|m| CaseResult::violation(format!("read-back result conversion: {m}")))?
     };
 
+    if dbg {
+        eprintln!("[timing] read back {:?}", t0.elapsed());
+    }
     // ---- compare
     let csv = c.format == Fmt::Csv;
     let norm = |rows: &[Row]| -> Vec<Row> {
